@@ -4,7 +4,7 @@ Proof side (coq/Props/C18.v): a deep embedding of the scalar leaf formulas (Mode
 reverse-mode derivative [vjp] built from JAX's per-primitive adjoint rules (shared values are let-bound as in the code), the
 predicate [Safe]; the meta-theorem Safe => finite value and finite adjoints in option-R arithmetic (None = inf/NaN, absorbing);
 Safe of every leaf formula and of the complete log_prob terms at every real input; refutations of the formulas before the
-repairs D1/D2; where(isnan) never NaN.
+repairs D1/D2/D9; where(isnan) never NaN.
 
 Tie (this file): the SAME extracted [eval]/[vjp] run in IEEE doubles (ocaml/bin/safe) next to the real flowjax code:
   adjoint-selftest   every adjoint rule alone vs jax.vjp of the single primitive on special values;
@@ -35,10 +35,10 @@ MANIFEST = {
             "shallow leaf models of coq/Model/Leaves.v: (1) once and for all, if every partial primitive of a term -- in EVERY branch of every "
             "where, selected or not -- is applied strictly inside its smooth domain (Safe), then the value and every adjoint computed by JAX's "
             "reverse-mode rules are finite in a semantics where inf/NaN is explicit and absorbing (0*None = None, the jnp.where pitfall); "
-            "(2) Safe holds for LeakyTanh transform/inverse/log-dets, the spline's transform/derivative/inverse (clipped bin index, literal-0 "
-            "substitution; needs lo <= 0 <= hi), SoftPlus.inverse (y > 0), Exp, Affine, _tanh_log_grad and for the complete log_prob terms of "
+            "(2) Safe holds for LeakyTanh transform/inverse/log-dets, the spline's transform/derivative/inverse (clipped bin index, "
+            "interval[0] substitution; any interval, containing 0 or not), SoftPlus.inverse (y > 0), Exp, Affine, _tanh_log_grad and for the complete log_prob terms of "
             "Transformed(StandardNormal, leaf) in both orientations, for ALL real inputs and ALL valid parameters; (3) the formulas before the "
-            "repairs D1/D2 are refuted (finite value, gradient None); (4) where(isnan,-inf) never yields NaN. The same eval/vjp, extracted "
+            "repairs D1/D2/D9 are refuted (not Safe: finite value with gradient None / negative discriminant); (4) where(isnan,-inf) never yields NaN. The same eval/vjp, extracted "
             "and run in IEEE doubles, reproduce jax.grad's finite/inf/NaN pattern of the real Transformed(...).log_prob on boundary-directed "
             "inputs (interval ends, every knot, +-max_val, +-tanh(max_val), +-1, 0, float neighbours, magnitudes to 1e4, nan/inf) both ways. "
             "The extracted terms also agree method by method (transform, inverse, log-dets, spline derivative) with jax.grad of the methods. "
@@ -406,14 +406,7 @@ def run_leaf(ctx, u, uo, ds, pg, n_rand):
         if len(ctx.samples) < 6 and i in (0, 7):
             ctx.sample(dict(case=case, implementation=dict(log_prob=float(v[i]), ddx=float(gx[i]), param_grads_finite=bool(pfin[i])),
                             model=dict(log_prob=mv, ddx=mgx, safe=msafe)))
-        if oerr and ds.get("probe") and not probe_enabled(ctx, ds["probe"]):
-            # a genuine failure of the property OUTSIDE the theorems' hypotheses (see PROBES): observation, not a violation, until
-            # known_findings.json carries an entry for its signature
-            obs = _OBS.setdefault(ds["probe"], dict(count=0, first=None))
-            obs["count"] += 1
-            if obs["first"] is None:
-                obs["first"] = dict(what=f"Transformed({basek}, {orient} {mk}).log_prob at x={x!r} [{pred}]: {oerr}", case=case, reproducer=repro(ds, x))
-        elif oerr:
+        if oerr:
             ctx.violation(sig=(f"oracle:{ds['probe']}:{orient}/{basek}" if ds.get("probe") else
                                f"oracle:{mk}/{orient}/{basek}:{oerr.split(' (')[0].split(' but ')[-1][:40]}:{pred}"),
                           what=f"Transformed({basek}, {orient} {mk}).log_prob at x={x!r} [{pred}]: {oerr}" + (f"; model of the repaired formula: {errs[0]}" if errs else ""),
@@ -471,27 +464,16 @@ def run_methods(ctx, um, spec, n_rand):
                               broken=f"correspondence method-tie ({mk}.{fname} term of Model/Expr.v vs the code)")
 
 
-_OBS = {}
-PROBES = {
-    "rqs-interval-excludes-0": "RationalQuadraticSpline with an interval that does not contain 0: x_robust/y_robust = where(in_bounds, ., 0) is then "
-                               "OUTSIDE the interval, the unselected branch evaluates the bin formulas at theta = 0 - y_k < 0 where b^2 - 4ac can be negative "
-                               "(open set of parameters): sqrt(neg) = NaN, 0 * NaN = NaN in every parameter gradient at every out-of-interval input. "
-                               "The theorems carry lo <= 0 <= hi (rqs_valid) for exactly this reason.",
-}
-
-
-def probe_enabled(ctx, probe):
-    """a probe's failures become VIOLATION / KNOWN-FINDING once known_findings.json has a C18 entry whose match covers its signature"""
-    import re
-    sig = f"oracle:{probe}:direct/StandardNormal"
-    return any(k.get("property") == "C18" and k.get("match") and re.fullmatch(k["match"], sig) for k in ctx.known)
-
-
 def probe_specs(ctx):
+    """splines whose interval does NOT contain 0 (on either side), parameters away from initialisation, small derivatives: the
+    configuration of finding D9 (fixed in c2cb03d: the robust replacement value was the literal 0, i.e. outside the interval)"""
     r = ctx.rng
     out = []
-    for knots, iv, shift in ([(2, [1.0, 3.0], -1.0), (3, [-3.0, -0.5], -2.0)] if ctx.quick else
-                             [(2, [1.0, 3.0], -1.0), (3, [-3.0, -0.5], -2.0), (4, [0.25, 2.0], -1.5), (2, [1.0, 3.0], 0.0), (5, [2.0, 7.0], -3.0), (3, [-1.0, -0.25], 1.0)]):
+    cfgs = [(2, [1.0, 3.0], -1.0), (3, [-3.0, -0.5], -2.0), (2, [2.0, 6.0], -1.0)]
+    if not ctx.quick:
+        cfgs += [(4, [0.25, 2.0], -1.5), (2, [1.0, 3.0], 0.0), (5, [2.0, 7.0], -3.0), (3, [-1.0, -0.25], 1.0), (8, [-9.0, -1.0], -2.5),
+                 (1, [0.5, 1.0], -2.0), (6, [1e-3, 4.0], -1.0)]
+    for knots, iv, shift in cfgs:
         out.append(dict(kind="rqs", knots=knots, interval=[fhex(v) for v in iv], x_raw=[fhex(v) for v in r.normal(0, 0.3, knots)],
                         y_raw=[fhex(v) for v in r.normal(0, 0.3, knots)], d_raw=[fhex(shift + v) for v in r.normal(0, 0.2, knots + 2)]))
     return out
@@ -689,14 +671,9 @@ def run(ctx):
             for base in bases:
                 ds = dict(leaf=spec, inverted=inverted, base=base)
                 run_leaf(ctx, u, uo, ds, pg=(spec["kind"] == "rqs" and (not ctx.quick or base is None)), n_rand=n_rand)
-    for spec in probe_specs(ctx):   # outside the theorems' hypothesis lo <= 0 <= hi: model and implementation must still agree
+    for spec in probe_specs(ctx):   # intervals that exclude 0 (finding D9): tie and oracle as for every other leaf
         for inverted in (False, True):
             run_leaf(ctx, u, uo, dict(leaf=spec, inverted=inverted, base=None, probe="rqs-interval-excludes-0"), pg=True, n_rand=n_rand)
-    for probe, obs in _OBS.items():
-        line = (f"OBSERVATION property=C18 probe={probe}: {obs['count']} input(s) where the property fails outside the theorems' hypotheses; first: "
-                f"{obs['first']['what']}")
-        print(line)
-        ctx.notes.append(line + " || " + PROBES[probe] + " || reproducer: " + obs["first"]["reproducer"])
     ctx.notes.append(f"leaf tie+oracle {time.time() - t0:.1f}s")
     t0 = time.time()
     um = ctx.unit("method-tie", "the term of each bijection METHOD alone (fwd/inv/log-dets/spline derivative: leaky_inv_t, rqs_fwd_t, rqs_inv_t, rqs_deriv_t, "
